@@ -156,6 +156,20 @@ def reader_keys(ctx, fn, dparam, depth=0):
     that receive the dict and loops over literal key lists."""
     prog = ctx.prog
     out = []
+    # local copies of the dict (remaining = params.copy() / dict(params) / deepcopy(params)) are read like the dict itself
+    if depth == 0 or True:
+        for a in walk_no_nested(fn.node):
+            if isinstance(a, ast.Assign) and len(a.targets) == 1 and isinstance(a.targets[0], ast.Name) and a.targets[0].id != dparam:
+                v = a.value
+                src = None
+                if isinstance(v, ast.Name):
+                    src = v.id
+                elif isinstance(v, ast.Call) and isinstance(v.func, ast.Attribute) and v.func.attr == 'copy' and isinstance(v.func.value, ast.Name) and not v.args:
+                    src = v.func.value.id
+                elif isinstance(v, ast.Call) and call_name(v) in ('dict', 'deepcopy', 'copy') and len(v.args) == 1 and isinstance(v.args[0], ast.Name):
+                    src = v.args[0].id
+                if src == dparam and depth < 3:
+                    out.extend(reader_keys(ctx, fn, a.targets[0].id, depth + 1) if a.targets[0].id != dparam else [])
     for n in walk_no_nested(fn.node):
         if isinstance(n, ast.Subscript) and isinstance(n.value, ast.Name) and n.value.id == dparam \
                 and isinstance(n.ctx, ast.Load):
@@ -538,6 +552,14 @@ def restored_attrs(ctx, cls, reader):
                 out.add(k.value)
             elif isinstance(k, ast.Name):
                 out.update(_literal_iter_values(reader, k.id))
+    # instance.<helper>(...): whatever the helper (and what it calls on self) writes
+    fx = get_attr_effects(ctx)
+    for n in walk_no_nested(reader.node):
+        if isinstance(n, ast.Call) and isinstance(n.func, ast.Attribute) and isinstance(n.func.value, ast.Name) and n.func.value.id in inst_names:
+            m = cls.lookup(n.func.attr)
+            if m is not None and m.kind == 'method':
+                _r, w = fx.transitive(m, cls)
+                out.update(w)
     init = cls.lookup('__init__')
     if init is not None and init.self_name:
         for n in walk_no_nested(init.node):
@@ -546,6 +568,41 @@ def restored_attrs(ctx, cls, reader):
                     if is_self_attr(t, init.self_name):
                         out.add(t.attr)
     return out
+
+
+def restored_values(ctx, cls, reader, attr):
+    """Value expressions from_dict (or a helper it calls on the instance) assigns to <instance>.<attr>; None when a
+    write exists whose value is not an expression in sight (setattr loop)."""
+    vals = []
+    inst_names = {n.targets[0].id for n in walk_no_nested(reader.node)
+                  if isinstance(n, ast.Assign) and isinstance(n.targets[0], ast.Name) and isinstance(n.value, ast.Call)}
+    for n in walk_no_nested(reader.node):
+        if isinstance(n, ast.Assign):
+            for t in n.targets:
+                if isinstance(t, ast.Attribute) and isinstance(t.value, ast.Name) and t.value.id in inst_names and t.attr == attr:
+                    vals.append(n.value)
+        elif isinstance(n, ast.Call) and isinstance(n.func, ast.Name) and n.func.id == 'setattr' and len(n.args) == 3:
+            k = n.args[1]
+            if (isinstance(k, ast.Constant) and k.value == attr) or (isinstance(k, ast.Name) and attr in _literal_iter_values(reader, k.id)):
+                return None
+            if not isinstance(k, (ast.Constant, ast.Name)):
+                return None
+        elif isinstance(n, ast.Call) and isinstance(n.func, ast.Attribute) and isinstance(n.func.value, ast.Name) and n.func.value.id in inst_names:
+            m = cls.lookup(n.func.attr)
+            if m is not None and m.kind == 'method':
+                fx = get_attr_effects(ctx)
+                _r, w = fx.transitive(m, cls)
+                for f, node in w.get(attr, ()):
+                    st = node
+                    while st is not None and not isinstance(st, ast.stmt):
+                        st = getattr(st, '_parent', None)
+                    if isinstance(st, ast.Assign):
+                        vals.append(st.value)
+                    else:
+                        return None
+            elif m is None and n.func.attr not in ('append', 'extend'):
+                pass
+    return vals
 
 
 def d4(ctx, rep):
@@ -573,6 +630,20 @@ def d4(ctx, rep):
                       f'self.{a} (read by {f.short}) is restored by {reader.short}',
                       f'self.{a} is read by {f.short} but {reader.short} never restores it: the rebuilt model fails or '
                       'behaves differently', construct=f'{cls.name}.{a}')
+        # the fitted flag: a class whose check_fit tests self.fitted must come back fitted
+        cf = cls.lookup('check_fit')
+        if cf is not None and cf.kind == 'method':
+            r_, _w = fx.transitive(cf, cls)
+            if 'fitted' in r_:
+                vals = restored_values(ctx, cls, reader, 'fitted')
+                if vals is None:
+                    rep.undecided('D4.complete', reader, reader.node.name, 'the value restored into .fitted is not an expression in sight', construct=f'{cls.name}.fitted flag')
+                elif not vals or all(isinstance(v, ast.Constant) and not v.value for v in vals):
+                    rep.bad('D4.complete', reader, vals[0] if vals else reader.node.name,
+                            f'{reader.short} never marks the rebuilt model as fitted (check_fit tests self.fitted): every query on from_dict(to_dict(m)) raises NotFittedError',
+                            construct=f'{cls.name}.fitted flag')
+                else:
+                    rep.ok('D4.complete', reader, vals[0], 'the rebuilt model is marked fitted (True, or the recorded flag)', construct=f'{cls.name}.fitted flag')
     # constructor options that shape the model when it is rebuilt or queried must be serialised
     root = prog.cls('copulas.univariate.base.ScipyModel')
     from_dict = prog.method('copulas.univariate.base.Univariate', 'from_dict')
@@ -598,6 +669,9 @@ def d4(ctx, rep):
                         st = st._parent
                     if isinstance(st, ast.Assign) and all(is_self_attr(t, f.self_name, a) for t in st.targets):
                         continue
+                    if isinstance(st, ast.If) and (st.body + st.orelse) and all(
+                            isinstance(b, ast.Assign) and all(is_self_attr(t, f.self_name, a) for t in b.targets) for b in st.body + st.orelse):
+                        continue  # `if not self.a: self.a = default`: the same defaulting, written as a statement
                     real.append((f, node))
                 if not real:
                     continue
@@ -673,12 +747,23 @@ def d5(ctx, rep):
         good = False
         for c in gi:
             a = c.args[0] if c.args else None
+            if isinstance(a, ast.Name):
+                from ..idioms import single_def
+                d_ = single_def(f.node, a.id)
+                a = d_ if isinstance(d_, ast.AST) else a
             if isinstance(a, ast.Subscript) and const_value(a.slice) == 'type':
                 good = True
             if isinstance(a, ast.Call) and call_name(a) in ('pop', 'get') and a.args and const_value(a.args[0]) == 'type':
                 good = True
-        rep.check('D5.dispatch', f, gi[0] if gi else f.node.name, good, "dispatches on the recorded 'type'",
-                  "does not build the instance from the recorded 'type'")
+        fixed = [c for c in walk_no_nested(f.node) if isinstance(c, ast.Call) and isinstance(c.func, ast.Attribute) and c.func.attr == 'from_dict'
+                 and (prog.resolve(f.module, c.func.value) or '') in prog.classes]
+        if not gi and fixed:
+            rep.bad('D5.dispatch', f, fixed[0], f"rebuilds every dict as {short(fixed[0].func.value, 40)}: the recorded 'type' is ignored")
+        elif not gi:
+            rep.undecided('D5.dispatch', f, f.node.name, 'no get_instance(...) call found in the dispatcher')
+        else:
+            rep.check('D5.dispatch', f, gi[0], good, "dispatches on the recorded 'type'",
+                      "does not build the instance from the recorded 'type'")
     # enum exhaustiveness
     enum = prog.cls('copulas.bivariate.base.CopulaTypes')
     members = [n for n in enum.attrs]
